@@ -167,8 +167,9 @@ class XorEncodedFile(io.RawIOBase):
 
     def read(self, n=-1):
         data = b""
+        pos = self.fh.tell()
         nonce = self.read_nonce()
-        while True:
+        while n != 0:
             chunk = self.fh.read(4)
             if not chunk:
                 break
@@ -179,7 +180,10 @@ class XorEncodedFile(io.RawIOBase):
                 break
         if n == -1:
             n = None
-        return data[:n]
+        data = data[:n]
+        # the underlying file is read in chunks of 4 bytes, position it directly after the bytes we return
+        self.fh.seek(pos + len(data))
+        return data
 
 
 @catch_sigpipe
